@@ -85,6 +85,81 @@ Eval(e, env) ==
     [] e.k = "var"  -> IF e.name \in DOMAIN env THEN env[e.name] ELSE VS(<<>>)
     [] e.k = "un"   -> UnOp(e.op, Eval(e.e, env))
     [] e.k = "bin"  -> BinOp(e.op, Eval(e.l, env), Eval(e.r, env))
+    [] e.k = "toks" -> Eval(e.e, env)
+
+
+(* ------------------------------------------------ concrete syntax, levels *)
+(* Tokens of a process expression:                                          *)
+(*   [t:"num",n] [t:"str",s] [t:"w",v] (word: true false not head tail and  *)
+(*   or, identifiers) [t:"op",v] [t:"lp"] [t:"rp"]                          *)
+(* Documented precedence: * / %  >  + -  >  comparisons  >  and or; one     *)
+(* level associates to the left; prefix operators bind tightest.            *)
+Level(op) == IF op \in BoolOps THEN 1 ELSE IF op \in CmpOps THEN 2
+             ELSE IF op \in {"+", "-"} THEN 3 ELSE 4
+(* The code splits comparisons into two sub-levels; the documents name one  *)
+(* class.  A comparison directly under a comparison of the other sub-class  *)
+(* is therefore always written with parentheses (DESIGN.md section 5).      *)
+CmpClass(op) == IF op \in {"==", "!="} THEN 1 ELSE IF op \in CmpOps THEN 2 ELSE 0
+Mixed(op, c) == c.k = "bin" /\ CmpClass(op) # 0 /\ CmpClass(c.op) # 0 /\ CmpClass(op) # CmpClass(c.op)
+
+TLP == [t |-> "lp"]   TRP == [t |-> "rp"]
+TW(v) == [t |-> "w", v |-> v]
+TOp(v) == IF v \in BoolOps THEN TW(v) ELSE [t |-> "op", v |-> v]
+Paren(ts) == <<TLP>> \o ts \o <<TRP>>
+LeafTok(e) ==
+  CASE e.k = "num"  -> [t |-> "num", n |-> e.v]
+    [] e.k = "str"  -> [t |-> "str", s |-> e.v]
+    [] e.k = "bool" -> TW(IF e.v THEN "true" ELSE "false")
+    [] e.k = "var"  -> TW(e.name)
+
+RECURSIVE RenderFull(_), RenderMin(_)
+RenderFull(e) ==
+  CASE e.k = "un"  -> Paren(<<TW(e.op)>> \o RenderFull(e.e))
+    [] e.k = "bin" -> Paren(RenderFull(e.l) \o <<TOp(e.op)>> \o RenderFull(e.r))
+    [] OTHER       -> <<LeafTok(e)>>
+RenderMin(e) ==
+  CASE e.k = "un"  -> <<TW(e.op)>> \o (IF e.e.k = "bin" THEN Paren(RenderMin(e.e)) ELSE RenderMin(e.e))
+    [] e.k = "bin" ->
+         LET lp == e.l.k = "bin" /\ (Level(e.l.op) < Level(e.op) \/ Mixed(e.op, e.l))
+             rp == e.r.k = "bin" /\ (Level(e.r.op) <= Level(e.op) \/ Mixed(e.op, e.r))
+         IN (IF lp THEN Paren(RenderMin(e.l)) ELSE RenderMin(e.l)) \o <<TOp(e.op)>>
+              \o (IF rp THEN Paren(RenderMin(e.r)) ELSE RenderMin(e.r))
+    [] OTHER       -> <<LeafTok(e)>>
+
+(* the documented grammar as a precedence-climbing parser over tokens;      *)
+(* result [ok, e, rest]                                                     *)
+PrefixOps == {"not", "head", "tail"}
+IsBinTok(tk) == (tk.t = "op") \/ (tk.t = "w" /\ tk.v \in BoolOps)
+PFail == [ok |-> FALSE, e |-> [k |-> "bool", v |-> FALSE], rest |-> <<>>]
+RECURSIVE ParseE(_, _), ParsePrimary(_), ParseTail(_, _, _)
+ParsePrimary(ts) ==
+  IF ts = <<>> THEN PFail
+  ELSE LET h == ts[1] IN
+    CASE h.t = "num" -> [ok |-> TRUE, e |-> [k |-> "num", v |-> h.n], rest |-> Tail(ts)]
+      [] h.t = "str" -> [ok |-> TRUE, e |-> [k |-> "str", v |-> h.s], rest |-> Tail(ts)]
+      [] h.t = "lp"  -> LET r == ParseE(Tail(ts), 1)
+                        IN IF r.ok /\ r.rest # <<>> /\ r.rest[1].t = "rp"
+                           THEN [ok |-> TRUE, e |-> r.e, rest |-> Tail(r.rest)] ELSE PFail
+      [] h.t = "w"   -> IF h.v \in {"true", "false"} THEN [ok |-> TRUE, e |-> [k |-> "bool", v |-> h.v = "true"], rest |-> Tail(ts)]
+                        ELSE IF h.v \in PrefixOps
+                             THEN LET r == ParseE(Tail(ts), 5)       \* tighter than every infix level
+                                  IN IF r.ok THEN [ok |-> TRUE, e |-> [k |-> "un", op |-> h.v, e |-> r.e], rest |-> r.rest] ELSE PFail
+                        ELSE IF h.v \in BoolOps THEN PFail
+                        ELSE [ok |-> TRUE, e |-> [k |-> "var", name |-> h.v], rest |-> Tail(ts)]
+      [] OTHER       -> PFail
+ParseTail(lhs, ts, minLevel) ==
+  IF ts = <<>> \/ ~IsBinTok(ts[1]) THEN [ok |-> TRUE, e |-> lhs, rest |-> ts]
+  ELSE LET op == ts[1].v  lv == Level(ts[1].v) IN
+       IF lv < minLevel THEN [ok |-> TRUE, e |-> lhs, rest |-> ts]
+       ELSE LET r == ParseE(Tail(ts), lv + 1)                        \* left associative
+            IN IF ~r.ok THEN PFail
+               ELSE ParseTail([k |-> "bin", op |-> op, l |-> lhs, r |-> r.e], r.rest, minLevel)
+ParseE(ts, minLevel) ==
+  LET p == ParsePrimary(ts) IN IF ~p.ok THEN PFail ELSE ParseTail(p.e, p.rest, minLevel)
+ParseExpr(ts) == LET r == ParseE(ts, 1) IN IF r.ok /\ r.rest = <<>> THEN r ELSE PFail
+
+(* an expression written out with tokens: evaluates as its tree             *)
+WithToks(e, toks) == [k |-> "toks", e |-> e, toks |-> toks]
 
 (* ------------------------------------------------------------ statements *)
 (* [k:"set",name,e] [k:"if",c,th,el] [k:"ret",e] [k:"dbg",e] [k:"loop",body] *)
@@ -164,6 +239,7 @@ TypeOf(e, tenv) ==
     [] e.k = "var"  -> IF e.name \in DOMAIN tenv THEN tenv[e.name] ELSE "s"
     [] e.k = "un"   -> UnType(e.op, TypeOf(e.e, tenv))
     [] e.k = "bin"  -> BinType(e.op, TypeOf(e.l, tenv), TypeOf(e.r, tenv))
+    [] e.k = "toks" -> TypeOf(e.e, tenv)
 
 TEnv0 == [x \in {"match", "matchLength"} |-> IF x = "match" THEN "s" ELSE "n"]
 
